@@ -92,8 +92,11 @@ Words == <<"note", "X1", "D1">>                       \* conventions: plain word
 \* a plain "word" may itself be reference syntax the model does not interpret: a collaboration reference stays as it is
 AtomsPool == {<<>>, <<[r |-> TRUE, s |-> "X1"], [r |-> FALSE, s |-> "X1"], [r |-> TRUE, s |-> "X11"], [r |-> TRUE, s |-> "D1"]>>,
               <<[r |-> TRUE, s |-> "D2"]>>, <<[r |-> TRUE, s |-> "X1"], [r |-> FALSE, s |-> "@{-1|lonely}"], [r |-> TRUE, s |-> "D1"]>>}
-TermPoolT == {<<[r |-> FALSE, s |-> "word"]>>, <<[r |-> TRUE, s |-> "X1"]>>, <<[r |-> TRUE, s |-> "D1"], [r |-> FALSE, s |-> "of"]>>}
-TextPoolT == {<<[r |-> TRUE, s |-> "D1"]>>, <<[r |-> FALSE, s |-> "see"], [r |-> TRUE, s |-> "D2"], [r |-> TRUE, s |-> "X1"]>>}
+\* atoms of the "texts" preset also carry the word form asked for (f) and whether they are glued to the previous atom (g)
+WordT(w) == [r |-> FALSE, s |-> w, f |-> "", g |-> FALSE]
+RefT(a, form, glued) == [r |-> TRUE, s |-> a, f |-> form, g |-> glued]
+TermPoolT == {<<WordT("word")>>, <<RefT("X1", "sing,nomn", FALSE)>>, <<RefT("D1", "plur,gent", FALSE), WordT("of")>>}
+TextPoolT == {<<RefT("D1", "sing,nomn", FALSE)>>, <<WordT("see"), RefT("D2", "plur,datv", FALSE), RefT("X1", "sing,nomn", TRUE)>>}
 \* the scripted prefix of "texts": base set, term, term (then no further Emplace)
 Scripted(k) == Preset \notin {"texts", "proj"} \/ (Len(hist) < 3 /\ k = (IF Len(hist) = 0 THEN "base" ELSE "term"))
 Free == Preset \notin {"texts", "proj"} \/ Len(hist) >= 3
